@@ -12,6 +12,7 @@ import (
 	"fmt"
 	"io"
 	"net/http"
+	"os"
 	"sort"
 	"strings"
 	"testing"
@@ -104,7 +105,7 @@ type scn struct {
 	CancelStep int   `json:"cancel_step"` // scheduling step
 	Reuse      bool  `json:"reuse"`
 	Debug      bool  `json:"debug"`        // Runtime.Debug: request and response are dumped through net/http/httputil
-	SrcErrKind int   `json:"src_err_kind"` // the error value a failing source returns: 0 private, 1 io.ErrUnexpectedEOF, 2 wraps io.EOF
+	SrcErrKind int   `json:"src_err_kind"` // the error value a failing source returns: 0 private, 1 io.ErrUnexpectedEOF, 2 wraps io.EOF, 3 io.ErrClosedPipe, 4 wraps context.Canceled, 5 wraps os.ErrDeadlineExceeded
 	SrcErrOnce bool  `json:"src_err_once"` // the failing source reports its error once, io.EOF afterwards
 	AdvanceIn  int   `json:"advance_in"`
 
@@ -117,7 +118,7 @@ type scn struct {
 		PullFixed    int  `json:"pull_fixed"`
 		Status       int  `json:"status"`
 		BodyLen      int  `json:"body_len"`
-		BodyFault    int  `json:"body_fault"` // 0 none 1 reset 2 truncate 3 stall
+		BodyFault    int  `json:"body_fault"` // 0 none 1 reset 2 truncate 3 stall 4 one read fails (timeout), the rest of the body follows
 		BodyFaultAt  int  `json:"body_fault_at"`
 		BodyWithData bool `json:"body_with_data"`
 		BodyChunk    int  `json:"body_chunk"`
@@ -206,7 +207,7 @@ func generate(t *kernel.Tape) *scn {
 	s.CancelStep = t.Choose(41, "cancel-step") // 0: the caller's context is already cancelled when Submit is called
 	s.Reuse = t.Bool(2, "reuse")
 	s.Debug = t.Bool(8, "debug-mode")
-	s.SrcErrKind = t.Weighted("source-error-value", 3, 1, 1)
+	s.SrcErrKind = t.Weighted("source-error-value", 3, 1, 1, 1, 1, 1)
 	s.SrcErrOnce = t.Bool(3, "source-error-reported-once")
 	s.AdvanceIn = []int{0, 6, 12, 3}[t.Choose(4, "advance-in")]
 	// transport/body shape (no faults yet)
@@ -266,7 +267,7 @@ func placeFault(t *kernel.Tape, s *scn) {
 	case "no-response":
 		s.T.NoResponse = 1 + t.Choose(2, "no-response")
 	case "body":
-		s.T.BodyFault = 1 + t.Choose(3, "body-fault")
+		s.T.BodyFault = 1 + t.Choose(4, "body-fault")
 		s.T.BodyFaultAt = t.Choose(s.T.BodyLen+1, "body-fault-at")
 	case "close-fail":
 		if len(s.Files) > 0 && t.Bool(2, "which-close") {
@@ -325,6 +326,12 @@ func (w *world) srcErr(what string) error {
 		return io.ErrUnexpectedEOF
 	case 2:
 		return fmt.Errorf("%s: %w", what, io.EOF)
+	case 3:
+		return io.ErrClosedPipe // the source is itself the reading end of a pipe whose writer went away
+	case 4:
+		return fmt.Errorf("%s: %w", what, context.Canceled) // the source's own producer was cancelled
+	case 5:
+		return fmt.Errorf("%s: %w", what, os.ErrDeadlineExceeded)
 	}
 	return &kernel.InjectedError{What: what}
 }
@@ -535,6 +542,8 @@ func (prop) Run(t *testing.T, tape *kernel.Tape, sc kernel.Scenario) *kernel.Res
 				p.BodyTerm = io.ErrUnexpectedEOF
 			case 3:
 				p.BodyStallAt = s.T.BodyFaultAt
+			case 4:
+				p.BodyTransientAt = s.T.BodyFaultAt
 			}
 			if s.T.CloseFail {
 				p.BodyCloseErr = &kernel.InjectedError{What: "closing the response body failed"}
@@ -747,7 +756,8 @@ func (prop) Run(t *testing.T, tape *kernel.Tape, sc kernel.Scenario) *kernel.Res
 			}
 			if ex.Resp.Closed == 0 {
 				env.Violate("C12/response-not-closed", faultSig, "response body was never closed")
-			} else if s.Reuse && !ex.Resp.TermBeforeClose && !ex.Resp.CtxErrBeforeClose {
+			} else if s.Reuse && !ex.Resp.TermBeforeClose && !ex.Resp.CtxErrBeforeClose && !(ex.Resp.TransientDelivered && w.readerSawErr == nil) {
+				// (a drain that itself runs into a read error has done what it can: only a failure the reader met leaves the rest to the drain)
 				env.Violate("C12/not-drained", drainSig(s, ex.Resp), "connection reuse enabled, end of body not yet seen by a read, but Close reached the stream with %d of %d bytes unread and no terminal condition delivered",
 					len(ex.Resp.Data)-ex.Resp.PosAtFirstClose, len(ex.Resp.Data))
 			}
@@ -768,7 +778,7 @@ func (prop) Run(t *testing.T, tape *kernel.Tape, sc kernel.Scenario) *kernel.Res
 }
 
 func debugDumpFault(b *kernel.Stream) bool {
-	return (b.TermDelivered && b.Term != nil) || b.CtxErrDelivered || (b.CloseErr != nil && b.Closed > 0)
+	return (b.TermDelivered && b.Term != nil) || b.TransientDelivered || b.CtxErrDelivered || (b.CloseErr != nil && b.Closed > 0)
 }
 
 type quietLogger struct{}
